@@ -159,8 +159,60 @@ func Load(dir string, withTests bool, withCG bool) *Program {
 			p.CG = vta.CallGraph(all, cha.CallGraph(p.SSA))
 		}()
 		p.Timings["vta_s"] = time.Since(t2).Seconds()
+		buildParamAlias(p)
 	}
 	return p
+}
+
+// paramAlias maps the parameters of single-caller helpers to the arguments
+// of their only call site. An unexported function or method that is called
+// from exactly one place (one static call site, no other edge in the call
+// graph: not used as a value, not reached dynamically) is an extracted piece
+// of its caller: inside it, a parameter *is* the caller's argument. strip()
+// follows these aliases, so that guards, provenance and field/const tests
+// written against the caller's values keep working when a few lines are
+// moved into such a helper (or were written that way in the first place).
+var paramAlias = map[*ssa.Parameter]ssa.Value{}
+
+// singleCallSite: helper -> its only call site.
+var singleCallSite = map[*ssa.Function]ssa.CallInstruction{}
+
+func buildParamAlias(p *Program) {
+	paramAlias = map[*ssa.Parameter]ssa.Value{}
+	singleCallSite = map[*ssa.Function]ssa.CallInstruction{}
+	if p.CG == nil {
+		return
+	}
+	p.RepoFuncs(func(g *ssa.Function) {
+		if g.Parent() != nil || g.Object() == nil || g.Object().Exported() || g.Synthetic != "" {
+			return
+		}
+		if g.Pkg == nil || strings.HasPrefix(g.Pkg.Pkg.Path(), ModPath+"/test") {
+			return
+		}
+		n := p.CG.Nodes[g]
+		if n == nil || len(n.In) != 1 {
+			return
+		}
+		e := n.In[0]
+		if e.Site == nil || e.Site.Common().StaticCallee() != g || e.Caller.Func == g {
+			return
+		}
+		if _, isGo := e.Site.(*ssa.Go); isGo {
+			return // runs concurrently with the caller: not "a piece of it"
+		}
+		if _, isDefer := e.Site.(*ssa.Defer); isDefer {
+			return
+		}
+		args := e.Site.Common().Args
+		if len(args) != len(g.Params) {
+			return
+		}
+		singleCallSite[g] = e.Site
+		for i, prm := range g.Params {
+			paramAlias[prm] = args[i]
+		}
+	})
 }
 
 // Pkg returns the repository package with the given path relative to the
